@@ -186,20 +186,27 @@ structure Plan where
   order : List Nat        -- source axes in result order
   deriving Repr
 
+def zeroStep : Item → Bool
+  | .slice _ _ (some 0) => true
+  | _ => false
+
 def plan (shape : List Nat) (ix : List Item) : Except Err Plan :=
   match expandItems shape.length ix with
   | .error e => .error e
   | .ok its =>
+    -- with a list present NumPy first takes the basic (slice) view — "slice step cannot be
+    -- zero" — and only then bounds-checks integers and list entries; otherwise left to right
+    if its.any Item.isList && its.any zeroStep then .error .value else
     match mapMExcept (fun (p : Nat × Item) => selOf p.1 p.2) (shape.zip its) with
     | .error e => .error e
     | .ok sels =>
       let lens := (sels.filterMap fun s => match s with | .lst ks => some ks.length | _ => none)
       match lens with
-      | _ :: _ :: _ =>
+      | l0 :: l1 :: rest =>
           -- two or more lists: NumPy broadcasts them against each other (pointwise indexing);
           -- not an axis selection. IndexError if the lengths do not broadcast.
-          let m := lens.foldl max 0
-          if lens.all (fun l => l = m ∨ l = 1) then .ok ⟨its, sels, []⟩ else .error .index
+          let nonOne := (l0 :: l1 :: rest).filter (· ≠ 1)
+          if nonOne.all (fun l => l = nonOne.headD 1) then .ok ⟨its, sels, []⟩ else .error .index
       | _ => .ok ⟨its, sels, npOrder (advSeparated ix) its⟩
 
 def Plan.multiList (p : Plan) : Bool :=
